@@ -301,22 +301,22 @@ var c06ReEntry = regexp.MustCompile(`(include|exclude) case #(\d+): (.*)$`)
 func c06ClassifyFeature(msg string) string {
 	has := func(s string) bool { return strings.Contains(msg, s) }
 	switch {
-	case has("client certs"):
-		return "certs-without-tls"
-	case has("H2C is supported"):
-		return "h2c-without-h2"
-	case has("HTTP/3"):
-		return "h3-without-tls"
-	case has("HTTP/2 is supported but neither"):
-		return "h2-without-tls-or-h2c"
-	case has("gRPC") && has("trailers"):
-		return "grpc-without-trailers"
-	case has("gRPC") && has("HTTP/2"):
-		return "grpc-without-h2"
 	case has("full-duplex"):
 		return "fullduplex-h1-only"
 	case has("half-duplex"):
 		return "halfduplex-h1-only"
+	case has("client certs"):
+		return "certs-without-tls"
+	case has("H2C is supported"):
+		return "h2c-without-h2"
+	case has("gRPC") && has("trailers"):
+		return "grpc-without-trailers"
+	case has("gRPC") && has("HTTP/2"):
+		return "grpc-without-h2"
+	case has("HTTP/3 is supported"):
+		return "h3-without-tls"
+	case has("HTTP/2 is supported"):
+		return "h2-without-tls-or-h2c"
 	}
 	return ""
 }
@@ -324,20 +324,20 @@ func c06ClassifyFeature(msg string) string {
 func c06ClassifyEntry(msg string) string {
 	has := func(s string) bool { return strings.Contains(msg, s) }
 	switch {
-	case has("client certs") && has("NOT using TLS"):
-		return "certs-with-tls-off"
-	case has("client certs") && has("not supported"):
-		return "certs-without-tls"
-	case has("HTTP/3"):
-		return "h3-without-tls"
-	case has("indicates HTTP/2"):
-		return "h2-without-tls-or-h2c"
-	case has("gRPC"):
-		return "grpc-without-h2"
 	case has("half-duplex"):
 		return "halfduplex-h1-only"
 	case has("full-duplex"):
 		return "fullduplex-h1-only"
+	case has("client certs") && has("NOT using TLS"):
+		return "certs-with-tls-off"
+	case has("client certs") && has("not supported"):
+		return "certs-without-tls"
+	case has("gRPC"):
+		return "grpc-without-h2"
+	case has("indicates HTTP/3"):
+		return "h3-without-tls"
+	case has("indicates HTTP/2"):
+		return "h2-without-tls-or-h2c"
 	}
 	return ""
 }
